@@ -439,6 +439,9 @@ func verifyAndFillConfig(cfg *ResponseConfig, nowMS int) error {
 	if cfg.ContMultiPeriodFlag && cfg.PeriodsPerHour == nil {
 		return fmt.Errorf("period continuity set, but not multiple periods per hour")
 	}
+	if cfg.PeriodsPerHour != nil && (*cfg.PeriodsPerHour < 1 || *cfg.PeriodsPerHour > 3600) {
+		return fmt.Errorf("periods per hour must be in the range 1-3600")
+	}
 	if cfg.SCTE35PerMinute != nil {
 		err := scte35.IsValidSCTE35Interval(*cfg.SCTE35PerMinute)
 		if err != nil {
